@@ -1,6 +1,6 @@
 (* C07 — Chunk store round trip and chunk addressing.  Only statements here. *)
 From Coq Require Import ZArith List Bool.
-From KV Require Import Base.Sx Gen.Generated Model.Chunks Model.ChunksMulti Proofs.ChunksP Proofs.ChunksRtP Proofs.ChunksPruneP Proofs.ChunksPrunedReadP Proofs.ChunksTopP Proofs.ChunksGenP Proofs.ChunksMultiP Model.ChunksGenPy Proofs.ChunksGenPyP Proofs.ChunksLinkP.
+From KV Require Import Base.Sx Gen.Generated Model.Chunks Model.ChunksMulti Proofs.ChunksP Proofs.ChunksRtP Proofs.ChunksPruneP Proofs.ChunksPrunedReadP Proofs.ChunksTopP Proofs.ChunksGenP Proofs.ChunksMultiP Model.ChunksGenPy Proofs.ChunksGenPyP Proofs.ChunksLinkP Proofs.ChunksHistP.
 Import ListNotations.
 Open Scope Z_scope.
 
@@ -449,3 +449,49 @@ Example C07_block_locations_example :
   /\ map fst (fst (put_array [] [120] 7 (fun _ : list Z => 0) [[3; 1; 2]] [10]))
      = map (fun s => chunk_key (chunk_name [120] [s])) [14; 13; 10].
 Proof. vm_compute. auto. Qed.
+
+(* ---- chunk by chunk, over arbitrary histories ---- *)
+
+(* Reading a chunk after ANY history of put_chunk (accepted or rejected) and mark_complete calls on a name-addressed
+   store returns the data of the LAST accepted put addressed to that chunk name (shape and dtype of the request checked
+   against it), and what the store held before if there was none: later puts to other chunk names, rejected puts and
+   completion markers never disturb a stored chunk. *)
+Theorem C07_chunk_history_read : forall (A : Type) (ops : list (@hop A)) (st : store A) arr sl dt,
+  get_chunk (run_hist st ops) arr sl dt false
+  = hist_answer dt sl (last_put arr (map fst sl) ops) (get_chunk st arr sl dt false).
+Proof. exact @hist_get. Qed.
+Print Assumptions C07_chunk_history_read.
+
+(* completion markers over histories: set by mark_complete of that very array, never by a put, never cleared *)
+Theorem C07_complete_history : forall (A : Type) (ops : list (@hop A)) (st : store A) arr,
+  is_complete (run_hist st ops) arr = marked arr ops || is_complete st arr.
+Proof. exact @hist_complete. Qed.
+Print Assumptions C07_complete_history.
+
+(* one chunk: a chunk whose shape matches its slices is accepted and reads back identical; a put changes the answer
+   for no other (array name, start tuple) *)
+Theorem C07_put_get_chunk : forall (A : Type) (st : store A) arr sl dt data,
+  exists st', put_chunk st arr sl dt false (slice_shape sl) data = Ok st'
+              /\ get_chunk st' arr sl dt false = Ok (slice_shape sl, data).
+Proof. exact @put_get_chunk. Qed.
+Print Assumptions C07_put_get_chunk.
+
+Theorem C07_put_chunk_frame : forall (A : Type) (st st' : store A) arr sl dt cshape data arr' sl' dt',
+  put_chunk st arr sl dt false cshape data = Ok st' ->
+  (arr', map fst sl') <> (arr, map fst sl) ->
+  get_chunk st' arr' sl' dt' false = get_chunk st arr' sl' dt' false.
+Proof. exact @put_chunk_frame. Qed.
+Print Assumptions C07_put_chunk_frame.
+
+(* non-vacuity: overwrite (last wins), a rejected put (shape (3) for slice 0:2) leaves the chunk alone, a marker in
+   between, another array, and a request with the same start but another stop (same name, wrong shape: BadChunk) *)
+Example C07_chunk_history_example :
+  let ops := [HPut [120] [(0, 2)] 7 [2] [1; 2]; HMark [120]; HPut [121] [(0, 2)] 7 [2] [8; 9];
+              HPut [120] [(0, 2)] 7 [3] [0; 0; 0]; HPut [120] [(0, 2)] 7 [2] [3; 4]; HPut [120] [(2, 4)] 7 [2] [5; 6]] in
+  let st := run_hist ([] : store Z) ops in
+  get_chunk st [120] [(0, 2)] 7 false = Ok ([2], [3; 4])
+  /\ get_chunk st [121] [(0, 2)] 7 false = Ok ([2], [8; 9])
+  /\ get_chunk st [120] [(0, 3)] 7 false = Err EBadChunk
+  /\ get_chunk st [120] [(4, 6)] 7 false = Err ENotFound
+  /\ is_complete st [120] = true /\ is_complete st [121] = false.
+Proof. vm_compute. repeat split; reflexivity. Qed.
